@@ -1876,6 +1876,17 @@ ure_buffer_free(ure_buffer_t buf)
       free((char *) buf->symtab[i].states.slist);
   }
 
+  /*
+   * The symbols of an expression which did not compile were not handed
+   * over to a DFA: their character class ranges are still ours.
+   */
+  for (i = 0; i < buf->symtab_used; i++) {
+    if ((buf->symtab[i].type == _URE_CCLASS ||
+	 buf->symtab[i].type == _URE_NCCLASS) &&
+	buf->symtab[i].sym.ccl.ranges_size > 0)
+      free((char *) buf->symtab[i].sym.ccl.ranges);
+  }
+
   if (buf->symtab_size > 0)
     free((char *) buf->symtab);
 
